@@ -37,7 +37,7 @@ pub fn run_one(seed: u64, tier: Tier) -> (History, world_h::Outcome) {
 /// one execution = fresh 1-thread rayon pool (fresh thread => hash keys drawn from the seeded entropy)
 pub fn run_history(seed: u64, h: &History) -> world_h::Outcome {
     entropy::set(rng::mix2(seed, rng::fnv("entropy")));
-    let pool = rayon::ThreadPoolBuilder::new().num_threads(1).build().expect("rayon pool");
+    let pool = rayon::ThreadPoolBuilder::new().num_threads(1).stack_size(64 << 20).build().expect("rayon pool");
     let r = pool.install(|| world_h::run(h, true));
     drop(pool);
     r
